@@ -59,6 +59,12 @@ CLAIMED = {
             "quantile stub's value on exactly the training scores and 1-level; PELT changepoint count is monotone in the "
             "penalty (product run on one symbolic cost table)",
             "4.C15"),
+    "C18": ("the generators run with scipy's rvs replaced by a stub returning symbolic draws: positions symbolic in "
+            "[-1, n+1] (validation forks, slices case-split), symbolic means / variances; z3 decides that every entry is "
+            "mean + sqrt(var) z inside the requested segment and z elsewhere, that positions outside the data raise "
+            "ValueError and valid ones do not, that equal arguments give identical terms, and that add_linspace_outliers "
+            "touches exactly the evenly spaced rows",
+            "4.C18"),
 }
 PENDING = {}
 TITLES = {}
